@@ -5,7 +5,8 @@ import ast
 
 from sa.report import Cx
 from sa.walker import WalkOptions
-from sa.terms import (Sym, Attr, Sub, App, Fresh, TupleT, Const, CompInfo, FTrue, AEq, AIsInst, ATruthy, f_not, implies, mk_cmp, atoms_of)
+from sa.terms import (Sym, Attr, Sub, App, Fresh, TupleT, Const, CompInfo, FTrue, AEq, AIsInst, ATruthy, f_not, implies, mk_cmp, atoms_of,
+                      term_symbols)
 from .common import BATCH, list_facts, _loop_stage_table, check_atomic, check_keyed_insert, check_keyed_delete, check_pure, order_class, strip_versions
 
 PID = 'C14'
@@ -20,6 +21,7 @@ EXPLANATION = (
     "entry. 'First declared varies slowest' is then itertools.product's documented order (trusted).")
 EXPLANATION += (" The constructor walks its dictionary in the dictionary's own order (not sorted / reversed / a set).")
 EXPLANATION += (' The TypeError handler of build() contains no raise.')
+EXPLANATION += (' A constructor path that declares nothing has established `parameters is None`.')
 ASSUMPTIONS = ["itertools.product semantics", "dict preserves insertion order", "values are re-iterable (quantifier)"]
 
 PL = BATCH + 'ParameterList'
@@ -385,6 +387,24 @@ def check_declaration(cx: Cx):
                          f"ParameterList.__init__ copies the dictionary in one step on a path [{p.cond!r}] that has not established that every "
                          f"key is a str (all(type(k) == str for k in parameters)): a dictionary with a non-string name is accepted",
                          where=cx.where(pinit, bulk[0].line), path=p.lines())
+    # ... whenever a dictionary was given at all: the only input without a declaration is None (a `type(p) == dict` / isinstance
+    # test drops the declaration of an OrderedDict, a defaultdict, a ChainMap - build() then answers [{}])
+    if okc:
+        from sa.terms import AIs as _AIs1
+        for p in cx.walker.paths(pinit, WalkOptions(unroll=1, callee_raises=False)):
+            if p.end == 'raise' or src_p is None:
+                continue
+            wrote = any(e.kind == 'store' and e.data.get('loc') == LOC and e.data.get('store') in ('setitem', 'update') for e in p.events) or \
+                any(e.kind == 'store' and e.data.get('loc') == LOC and e.data.get('store') == 'rebind' and src_p in term_symbols(e.data.get('value'))
+                    for e in p.events)
+            looped = any(e.kind == 'loop' for e in p.events)
+            if not wrote and not looped and implies(p.cond, _AIs1(src_p, Const(None))) is not None:
+                okc = False
+                cx.violation('R-GUARD', pinit.qualname, 'constructor-declares-every-entry',
+                             f"ParameterList.__init__ declares nothing on a path [{p.cond!r}] that has not established `parameters is None`: "
+                             f"a mapping that fails the test (a dict subclass, a ChainMap) is silently ignored and build() returns [{{}}]",
+                             where=cx.where(pinit))
+                break
     if okc and ni:
         cx.ok('R-GUARD', 'constructor declares every (string-keyed) entry exactly as given', where=cx.where(pinit), function=pinit.qualname)
     elif okc:
